@@ -187,3 +187,46 @@ func distinct(addrs ...sdk.AccAddress) {
 		}
 	}
 }
+
+// ---------------------------------------------------------------- events
+//
+// eventsOf: the events of one type emitted so far on the context's event manager, in order
+func eventsOf(ctx sdk.Context, typ string) []sdk.Event {
+	var out []sdk.Event
+	for _, e := range ctx.EventManager().Events() {
+		if e.Type == typ {
+			out = append(out, e)
+		}
+	}
+	return out
+}
+
+// eventsIn: the events of one type in the result of a delivered message
+func eventsIn(res *sdk.Result, typ string) []sdk.Event {
+	var out []sdk.Event
+	if res == nil {
+		return out
+	}
+	for _, e := range res.Events {
+		if e.Type == typ {
+			out = append(out, sdk.Event(e))
+		}
+	}
+	return out
+}
+
+// attrOf: the value of an event's attribute
+func attrOf(e sdk.Event, key string) (string, bool) {
+	for _, a := range e.Attributes {
+		if string(a.Key) == key {
+			return string(a.Value), true
+		}
+	}
+	return "", false
+}
+
+func sameCompact(a, b types.CompactRequest) bool {
+	return vf.All(string(a.RequestContextId) == string(b.RequestContextId), a.RequestContextBatchCounter == b.RequestContextBatchCounter,
+		a.Provider.Equals(b.Provider), a.ServiceFee.AmountOf(Denom).Equal(b.ServiceFee.AmountOf(Denom)), len(a.ServiceFee) == len(b.ServiceFee),
+		a.RequestHeight == b.RequestHeight, a.ExpirationHeight == b.ExpirationHeight)
+}
